@@ -5,14 +5,19 @@ class P(vlib.Prop):
     watch = ("pkg/apk/apk/index.go", "pkg/apk/apk/apkindex.go", "pkg/apk/signature/rsa.go")
     rule = ("names stage: signatureFileRegex.FindStringSubmatch on hand-picked and generated entry names vs the model's splitter; "
             "parse stage: a corpus of hand-picked archives (every rejection reason, every opt-out combination, DSA/RSA512 names carrying valid RSA signatures, "
-            "key names with '/', extra entries in the signature member, several signatures of which a later one verifies, meta-headers and zero blocks left "
-            "at the end of the signature member) then generated archives x option combinations, each built as real bytes with fresh RSA-2048 keys and run through the real "
-            "parseRepositoryIndex; the harness hands the abstract view, the crypto/rsa truth table of verification and the ParsePackageIndex table to the model; "
-            "sweep stage (exploration): every truncation point, single-bit/byte alterations, deletions, insertions, splices and cross-overs between signed archives and "
-            "hand-made tar blocks appended to the signature member, judged on the real code against the property itself. "
-            "repos stage: HISTORIES of calls of the real GetRepositoryIndexes (one goroutine per repository, process-wide index cache) over eight repositories whose indexes are signed by "
-            "alice, signed by bob, unsigned or spliced, reached as local directories, over HTTP with and without an ETag; every call has its own key set, ignore flag and exemption list; "
+            "key names with '/', key files that are not PKIX RSA keys (PKCS#1, ECDSA, several PEM blocks), extra entries in the signature member, several signatures of which a later one verifies, "
+            "meta-headers and zero blocks left at the end of the signature member) then generated archives x option combinations, each built as real bytes with fresh RSA-2048 keys and run through the real "
+            "parseRepositoryIndex; the harness hands the abstract view, the crypto/rsa truth table of verification and the ParsePackageIndex table to the model; accept/reject, package list, description and the "
+            "Signature field are compared; the evidence carries the histogram of archive shapes (extra.shape_histogram) and every required shape occurs among the generated cases of every run; "
+            "sweep stage: every truncation point, single-bit/byte alterations, deletions, insertions, splices and cross-overs between signed archives and "
+            "hand-made tar blocks appended to the signature member are run through the real code and EVERY mutant is handed to the mutant-oracle validator (Spec/IndexBytesSpec.v, proved sound: "
+            "verdict = rejected, or accepted with the package list of a signed byte string the mutant ends with); accepted mutants are one case each (pieces of the mutant after the claimed cut, rendered "
+            "and compared in Coq), rejected ones are batched per base archive x kind of mutation. "
+            "repos stage: HISTORIES of calls of the real GetRepositoryIndexes (one goroutine per repository, process-wide index cache) over ten repositories whose indexes are signed by "
+            "alice, signed by bob, signed by another key stored under alice's file name, unsigned or spliced, reached as local directories, over HTTP with and without an ETag; every call has its own key set, ignore flag and exemption list; "
             "the validator demands that every index a call returns was authorised by THAT call, and the outcome is compared with the cache model (Model/IndexCache.v). "
+            "vctx stage: PAIRS of requests through the real verificationContext (the verification-context part of the cache key); the model, which interprets the hash writes goextract read from the source, must build the "
+            "same hash input and string, and the validator demands that equal strings mean the same checked-ness and the same set of (key name, key bytes) pairs. "
             "A parse case is non-trivial when the archive has a signature member with at least one entry; distinct = distinct case terms.")
     stages = (
         dict(name="names", cmd="c04", args=lambda t, s: ["-stage", "names"]),
@@ -22,18 +27,25 @@ class P(vlib.Prop):
         dict(name="vctx", cmd="c04", args=lambda t, s: ["-stage", "vctx"]),
     )
     assumptions = (
-        "SHA-1/SHA-256, RSA PKCS1v15 verification and the APKINDEX text parser are Section variables; theorems speak about the verify oracle's answer and equality of what is hashed, not about collision resistance",
-        "gzip and tar byte decoding are not modelled: an archive is a list of gzip members, each a list of tar entries plus what the member's tar stream ends with (pending meta-header, zero blocks); the byte level is explored by the sweep stage on the real code",
+        "SHA-1/SHA-256, RSAVerifyDigest (PEM/PKIX decoding + RSA PKCS1v15), the gzip and tar readers and the APKINDEX text parser are Section variables; the structural theorems speak about the verify oracle's answer on the digest of exactly what is parsed",
+        "c04_mutant_oracle (and its two corollaries) assume soundness of the signature oracle as a hypothesis of the theorem: whatever verifies under a configured key's bytes over the digest of x is one of the byte strings that were signed (unforgeability and collision resistance, idealised)",
+        "c04_vctx_injective and c04_cache_real_context_sound assume a collision-free hash (hypothesis of the theorems) in place of SHA-256",
+        "byte level: the archive is a byte string, the number of bytes the gzip reader of the signature pass consumed is an arbitrary oracle output (not assumed to be a member boundary); gzip/tar byte decoding itself is exercised by the parse and sweep stages only",
+        "member-structure level: an archive is a list of gzip members, each a list of tar entries plus what the member's tar stream ends with (pending meta-header, zero blocks); c04_bytes_model_refines_structure states when the two levels agree",
         "a PAX size record is modelled when it keeps the number of 512-byte blocks (exact) or lowers it (tar header error, given that content blocks are not valid tar headers); raising it is outside the modelled envelope (the model answers Unmodelled, the sweep stage covers it)",
-        "the key map is modelled as the list of its names (no duplicates); verify is indexed by key name",
+        "structure model: the key map is the list of its names (no duplicates), verify indexed by key name; byte model and verificationContext: the key map is a list of (name, key bytes) pairs",
     )
-    level_text = ("Theorems about an executable model of parseRepositoryIndex + IndexFromArchive + shouldCheckSignatureForIndex for all archives (any number of members, entries, "
-                  "signature entries), key sets and option combinations; the signature-name regular expression, the signature-type switch, the file-name constants and the IndexURL format "
-                  "are regenerated from index.go/apkindex.go/const.go on every run; model tied to the code by differential comparison on generated archives built as real bytes.")
-    level_note = ("trusted: Coq kernel, goextract, Go harness/printer; modelled not verified: Go text of parseRepositoryIndex/IndexFromArchive, klauspost gzip, compress/gzip, archive/tar, crypto/rsa; "
-                  "correspondence and byte sweep are testing, not proof")
+    level_text = ("Theorems about executable models of parseRepositoryIndex (member-structure level with IndexFromArchive as a tar walk, and byte level with the cut b[readBytes:] the code computes), "
+                  "shouldCheckSignatureForIndex, verificationContext and the index cache, for all archives / byte strings, key sets, option combinations and call histories: acceptance requires a verified entry "
+                  "of a verifiable type by a configured key over exactly the bytes that are parsed; the mutant oracle (rejected, or accepted with the content of a signed suffix) under a stated soundness hypothesis on the "
+                  "signature oracle; the cache key separates verification contexts under a collision-free hash. The signature-name regular expression, the signature-type switch, the file-name constants, the IndexURL format, "
+                  "the exemption test, the guards around the two loops, the arguments of RSAVerifyDigest, the hashed and the parsed expression and the hash writes of verificationContext "
+                  "are regenerated from index.go/apkindex.go/const.go on every run; models tied to the code by differential comparison on generated archives built as real bytes.")
+    level_note = ("trusted: Coq kernel, goextract, Go harness/printer; modelled not verified: Go text of parseRepositoryIndex/IndexFromArchive/verificationContext/indexCache.get, klauspost gzip, compress/gzip, archive/tar, "
+                  "encoding/pem, crypto/x509, crypto/rsa; correspondence stages are testing, not proof; the sweep validator is proved sound but what it is fed are the real code's verdicts on finitely many mutants")
     design_ref = "DESIGN.md 7 C04"
-    modelled_not_verified = ("parseRepositoryIndex, IndexFromArchive, shouldCheckSignatureForIndex, IndexURL are modelled by hand (Model/Index.v); signatureFileRegex, the signatureType switch, "
-                             "apkIndexFilename/descriptionFilename/indexFilename, the .SIGN. prefix and the IndexURL format are regenerated from the source; gzip/tar/crypto are exercised by the parse and sweep stages only")
+    modelled_not_verified = ("parseRepositoryIndex, IndexFromArchive, shouldCheckSignatureForIndex, IndexURL, verificationContext are modelled by hand (Model/Index.v, IndexBytes.v, IndexVctx.v) around constants, tables and statement shapes "
+                             "regenerated from the source (Generated/IndexConsts.v, IndexShapes.v, Regexes.v); indexCache.get/GetRepositoryIndexes only as a cache discipline (no pin name, ETag change, mtime re-read, missing-file skip); "
+                             "RSAVerifyDigest, gzip, tar are oracles exercised by the parse, sweep and vctx stages; expandapk.Split is not on the index path")
 
 PROP = P()
